@@ -20,6 +20,18 @@ let () =
   try
     while true do
       let line = input_line stdin in
+      if String.length line > 0 && line.[0] = 'C' then begin
+        (* C <open 0 ok|1 format|2 other> <n_syntax> <validate failures> <validated entries> <dangling> <nframes_err 0|1> *)
+        match List.map int_of_string (List.filter (fun s -> s <> "") (String.split_on_char ' ' (String.sub line 1 (String.length line - 1)))) with
+        | [op; ns; nfail; ntot; dang; nfe] ->
+            let rec mk k b = if k <= 0 then [] else b :: mk (k - 1) b in
+            let i = { opened = (if op = 0 then OpenOk else if op = 1 then OpenFormat else OpenOther); n_syntax = nat_of_int ns;
+                      validate_fail = mk nfail true @ mk (ntot - nfail) false; dangling = nat_of_int dang; nframes_err = (nfe <> 0) } in
+            let o = checkdirfile i in
+            let rec int_of_nat = function O -> 0 | S k -> 1 + int_of_nat k in
+            Printf.printf "exit %d syntax %d problems %d\n" (int_of_z o.exit_code) (int_of_nat o.syntax_reported) (int_of_nat o.problems_reported)
+        | _ -> print_endline "?"
+      end else
       match List.map int_of_string (List.filter (fun s -> s <> "") (String.split_on_char ' ' (String.trim line))) with
       | nf :: skip :: zero :: ncols :: rest ->
           let rec cols k l = if k = 0 then [] else match l with
